@@ -530,10 +530,65 @@ class C08(Property):
         case["sched"] = {"seed": rng.below(2 ** 32), "policy": self.gen_policy(rng, n)}
         return case
 
+    def gen_long(self, rng, mode="sched"):
+        """streams well above the in_queue capacity (2n) + what the workers hold, stopped early by an error or an abandon:
+        the loader is still blocked on the full in_queue when the call has to end"""
+        n = rng.choice([1, 1, 2, 2, 3])
+        m = rng.choice([0, 1, 2, 3, 5, 5])
+        cnt = rng.randint(2 * n + 6, 50 if mode == "sched" else 40)
+        items = [{"outs": [i % 7] if rng.chance(0.9) else [], "err": None, "gen": rng.chance(0.5)} for i in range(cnt)]
+        for it in items:
+            if not it["outs"]:
+                it["gen"] = True
+        case = {"mode": mode, "n": n, "m": m, "items": items, "abandon": None}
+        r = rng.below(100)
+        if r < 60:
+            for i in rng.sample(list(range(6)), rng.choice([1, 1, 1, 2, n])):
+                items[i]["err"] = rng.choice(list(PLAIN_ERRS[:5]))
+                if not items[i]["gen"]:
+                    items[i]["outs"] = []
+        elif r < 90:
+            case["abandon"] = rng.randint(1, 3)
+        if rng.chance(0.3):
+            case["iter"] = True
+        if mode == "sched":
+            case["sched"] = {"seed": rng.below(2 ** 32), "policy": self.gen_policy(rng, n)}
+        return case
+
+    def gen_history(self, rng, mode="sched"):
+        """2-3 consecutive filter() calls on the same Multiprocessor object: raising / fine / abandoned in random order"""
+        n = rng.choice([1, 1, 2, 2, 3])
+        m = rng.choice([0, 1, 1, 2, 3])
+        k = rng.choice([2, 2, 3])
+        kinds = [rng.choice(["raise", "raise", "fine", "abandon"]) for _ in range(k)]
+        if "raise" not in kinds[:-1] and rng.chance(0.7):
+            kinds[0] = "raise"
+        if mode == "real":
+            # with real processes an abandoned call leaves workers behind that share `self._n_procs`/`_exceptions`
+            # with the next call; only the last call may be abandoned
+            kinds = [("fine" if kk == "abandon" and j < k - 1 else kk) for j, kk in enumerate(kinds)]
+        hist = []
+        for kk in kinds:
+            cnt = rng.randint(1, 6)
+            items = [{"outs": [rng.randint(0, 5)] if rng.chance(0.85) else [], "err": None, "gen": True} for _ in range(cnt)]
+            h = {"items": items, "abandon": None}
+            if kk == "raise":
+                self.add_errors(rng, items, list(PLAIN_ERRS[:5]))
+            elif kk == "abandon":
+                h["abandon"] = rng.randint(1, max(1, sum(len(it["outs"]) for it in items)))
+            hist.append(h)
+        case = {"mode": mode, "n": n, "m": m, "items": [], "abandon": None, "history": hist}
+        if mode == "sched":
+            case["sched"] = {"seed": rng.below(2 ** 32), "policy": self.gen_policy(rng, n)}
+        return case
+
     def generate(self, rng, tier):
         r = rng.below(1000)
         if r < (9 if tier == "quick" else 3):
-            return self.gen_real(rng)
+            k = rng.below(10)
+            return self.gen_history(rng, "real") if k < 3 else self.gen_long(rng, "real") if k < 5 else self.gen_real(rng)
+        if r >= 850:
+            return self.gen_history(rng) if r >= 925 else self.gen_long(rng)
         if r < (13 if tier == "quick" else 20):
             return self.gen_dfs(rng, tier)
         if r < 40:
@@ -589,6 +644,11 @@ class C08(Property):
 
     def search(self, rng, tier):
         # B-only search: small configurations, many schedules, biased policies
+        r = rng.below(100)
+        if r < 15:
+            return self.gen_history(rng)
+        if r < 30:
+            return self.gen_long(rng)
         c = self.gen_case(rng, tier)
         if rng.chance(0.5):
             c["n"] = rng.choice([1, 2, 2, 3])
@@ -620,6 +680,24 @@ class C08(Property):
         # exhaustive small scopes
         cs.append({"mode": "dfs", "n": 1, "m": 1, "items": [one(0)], "abandon": None, "budget": 60, "depth": 30, "skip": 0})
         cs.append({"mode": "dfs", "n": 2, "m": 1, "items": [{"outs": [0], "err": "ValueError", "gen": True}, one(1)], "abandon": None, "budget": 40, "depth": 10, "skip": 0})
+        # long stream, early error: every worker is gone while the loader is parked on the full in_queue
+        for n, m, cnt, bad in ((1, 5, 40, 3), (1, 0, 12, 0), (2, 1, 30, 1), (2, 3, 50, 4)):
+            items = [{"outs": [i % 5], "err": ("ValueError" if i == bad or (n > 1 and i == bad + 1) else None), "gen": True} for i in range(cnt)]
+            for pol in ("uniform", "loader-fast", "callbacks-eager"):
+                cs.append({"mode": "sched", "n": n, "m": m, "items": items, "abandon": None, "sched": P(pol)})
+        cs.append({"mode": "sched", "n": 1, "m": 2, "items": [one(i) for i in range(30)], "abandon": 1, "sched": P("loader-fast")})
+        # the same object used again: raising call, then a fine one (and with m>0: retired workers must still be replaced)
+        bad3 = [{"outs": [i], "err": ("ValueError" if i == 1 else None), "gen": True} for i in range(3)]
+        fine4 = [{"outs": [i], "err": None, "gen": True} for i in range(4)]
+        for n, m in ((1, 1), (2, 0), (2, 2), (3, 1)):
+            cs.append({"mode": "sched", "n": n, "m": m, "items": [], "abandon": None, "sched": P("uniform"),
+                       "history": [{"items": bad3, "abandon": None}, {"items": fine4, "abandon": None}]})
+        cs.append({"mode": "sched", "n": 2, "m": 1, "items": [], "abandon": None, "sched": P("uniform"),
+                   "history": [{"items": fine4, "abandon": 2}, {"items": bad3, "abandon": None}, {"items": fine4, "abandon": None}]})
+        cs.append({"mode": "real", "n": 2, "m": 1, "items": [], "abandon": None,
+                   "history": [{"items": bad3, "abandon": None}, {"items": fine4, "abandon": None}]})
+        cs.append({"mode": "real", "n": 1, "m": 5, "abandon": None,
+                   "items": [{"outs": [i % 5], "err": ("ValueError" if i == 3 else None), "gen": True} for i in range(40)]})
         # real processes
         cs.append({"mode": "real", "n": 2, "m": 1, "items": [one(i) for i in range(3)], "abandon": None})
         cs.append({"mode": "real", "n": 2, "m": 0, "items": [{"outs": [i, i], "err": ("C08Error" if i == 1 else None), "gen": True} for i in range(3)], "abandon": None})
@@ -639,6 +717,8 @@ class C08(Property):
         mode = case.get("mode", "sched")
         if mode == "dfs":
             return self.evaluate_dfs(case, driver)
+        if case.get("history"):
+            return self.evaluate_history(case, driver, mode)
         if mode == "real":
             run = run_real(case)
             if run["outcome"]["kind"] == "hang":        # an overloaded machine is not a hang: once more, generously
@@ -654,7 +734,8 @@ class C08(Property):
             afails, model = correspond(case, run, driver)
             fails += afails
         rs = raising(case)
-        tags = ["mode:" + mode, "n:%d" % case["n"], "m:%d" % case["m"], "items:%d" % len(case["items"]),
+        ni = len(case["items"])
+        tags = ["mode:" + mode, "n:%d" % case["n"], "m:%d" % case["m"], "items:%s" % (ni if ni <= 10 else "11-25" if ni <= 25 else "26-50"),
                 "outcome:" + run["outcome"]["kind"], "errs:%s" % ("0" if not rs else "1" if len(rs) == 1 else "2+")]
         if inprocess(case):
             tags.append("path:in-process")
@@ -670,6 +751,8 @@ class C08(Property):
             tags.append("probe:none-output")
         if any(case["items"][i]["err"] in SWALLOWED for i in rs):
             tags.append("probe:swallowed-error-type")
+        if ni > 2 * case["n"] + 4 and (rs and rs[0] <= 5 or (case.get("abandon") or 99) <= 3):
+            tags.append("shape:long-stream-early-stop")
         if mode == "sched":
             tags.append("policy:" + ((case.get("sched") or {}).get("policy") or {}).get("name", "uniform").split("+")[0])
             tags += trace_tags(case, run)
@@ -678,6 +761,34 @@ class C08(Property):
                 "trace": (run["trace"] or [])[:400]}
         return {"fails": fails, "nontrivial": nontrivial, "tags": tags, "impl": impl,
                 "model": None if model is None else {k: model.get(k) for k in ("outcome", "steps", "done", "mu0", "outs", "err")}}
+
+    def evaluate_history(self, case, driver, mode):
+        """consecutive calls on one Multiprocessor object: every call must satisfy the property on its own, and (A) replays
+        each call's trace from the model's `init` (the per-call state `_n_procs`, `_exceptions`, … starts afresh)"""
+        cs = calls_of(case)
+        if mode == "real":
+            runs = run_real(case)["runs"]
+            if runs and runs[-1]["outcome"]["kind"] == "hang":
+                runs = run_real(case, timeout=150.0)["runs"]
+        else:
+            runs = run_history_scheduled(case)
+        agg = {"fails": [], "nontrivial": False, "tags": [], "impl": [], "model": []}
+        kinds = []
+        for c, run in zip(cs, runs):
+            out = self.verdict(c, run, driver, mode)
+            agg["fails"] += out["fails"]
+            agg["nontrivial"] = agg["nontrivial"] or out["nontrivial"]
+            agg["tags"] += [t for t in out["tags"] if t.startswith(("ev:", "outcome:"))]
+            agg["impl"].append(out["impl"])
+            agg["model"].append(out["model"])
+            kinds.append("abandon" if c.get("abandon") is not None else "raise" if raising(c) else "fine")
+            if out["fails"]:
+                break
+        agg["tags"] = sorted(set(agg["tags"])) + ["mode:" + mode, "n:%d" % case["n"], "m:%d" % case["m"], "history:%d" % len(cs),
+                                                   "hist:" + ">".join(kinds[:2])]
+        if case.get("wrap"):
+            agg["tags"].append("wrap:CobaMultiprocessor")
+        return agg
 
     def evaluate_dfs(self, case, driver):
         """bounded depth-first enumeration of the schedules of one small configuration"""
@@ -721,6 +832,24 @@ class C08(Property):
     def shrink(self, case):
         if case.get("mode") == "real":
             return                      # a hanging real-process run costs a full time-out per candidate
+        hist = case.get("history")
+        if hist:
+            if len(hist) > 1:
+                for k in range(len(hist)):
+                    yield dict(case, history=hist[:k] + hist[k + 1:])
+            else:
+                yield dict({kk: v for kk, v in case.items() if kk != "history"}, items=hist[0]["items"], abandon=hist[0].get("abandon"))
+            for k, h in enumerate(hist):
+                for j in range(len(h["items"])):
+                    h2 = dict(h, items=h["items"][:j] + h["items"][j + 1:])
+                    if h2.get("abandon") is not None:
+                        h2["abandon"] = min(h2["abandon"], max(1, sum(len(it["outs"]) for it in h2["items"])))
+                    yield dict(case, history=hist[:k] + [h2] + hist[k + 1:])
+            if case["n"] > 1:
+                yield dict(case, n=case["n"] - 1)
+            if case["m"] > 1:
+                yield dict(case, m=case["m"] - 1)
+            return
         items = case["items"]
         for k in range(len(items)):
             c = dict(case, items=items[:k] + items[k + 1:])
@@ -749,6 +878,11 @@ class C08(Property):
 
     def snippet(self, case):
         repo = os.environ.get("COBA_REPO", "/repo")
+        if case.get("history") and case.get("mode") != "real":
+            return ("# consecutive filter() calls on ONE Multiprocessor object, each under the baton scheduler\n"
+                    "import sys; sys.path[:0]=[%r,'/verif/harness']\nimport json\nfrom props.c08 import run_history_scheduled, calls_of, judge\n"
+                    "case = json.loads(%r)\nfor c, r in zip(calls_of(case), run_history_scheduled(case)):\n"
+                    "    print(r['outs'], r['outcome'], judge(c, r))\n" % (repo, json.dumps(case)))
         if case.get("mode") == "real" or inprocess(case):
             return ("# real processes, no harness scheduling\nimport sys; sys.path[:0]=[%r,'/verif/harness']\nimport json\n"
                     "from props.c08 import run_real\nif __name__ == '__main__':\n    case = json.loads(%r)\n"
